@@ -173,4 +173,140 @@ theorem parseLines_err (brk : Bool) (lines : List Str) (e : Err) (h : parseLines
       · next hne => exact absurd i2 hne
       · exact convertAll_err _ i4 _ e h
 
+/-! ### readlines, allowing empty lines -/
+
+theorem splitLines_joinLines' (ls : List Str) (fin : Bool) (h10 : ∀ l ∈ ls, ∀ c ∈ l, c ≠ 10)
+    (hlast : fin = true ∨ ∀ l, ls.getLast? = some l → l ≠ []) : splitLines (joinLines ls fin) = ls := by
+  unfold splitLines
+  induction ls with
+  | nil => rfl
+  | cons l r ih =>
+    have hl := h10 l (by simp)
+    cases r with
+    | nil =>
+      cases fin
+      · have hne : l ≠ [] := by
+          rcases hlast with h | h
+          · simp at h
+          · exact h l rfl
+        simpa [joinLines] using splitLinesAux_last l [] hl hne
+      · simp only [joinLines, if_true]
+        rw [splitLinesAux_line l [] [] hl]
+        simp [splitLinesAux]
+    | cons l2 r' =>
+      have hj : joinLines (l :: l2 :: r') fin = l ++ 10 :: joinLines (l2 :: r') fin := rfl
+      rw [hj, splitLinesAux_line l _ [] hl, ih (fun x hx => h10 x (by simp [hx])) ?_]
+      · simp
+      · rcases hlast with h | h
+        · exact Or.inl h
+        · right; intro x hx; exact h x (by simpa [List.getLast?_cons_cons] using hx)
+
+/-! ### a data line of the wrong width -/
+
+theorem row_width_lines (f : File) (hwf : f.wf) (bad : Str) (tail : List Str)
+    (hbad : (splitWs (prep bad)).length ≠ 3 + f.sel.length) :
+    parseLines false (f.lines ++ bad :: tail) = .error .dat := by
+  have hbad' : (splitWs (prep bad)).length ≠ (columns ([] : Str) (headerTokens f.sel).length
+      (f.rows.map (fun r => rowTokens r.1 r.2.2))).length := by
+    rw [columns_length]; simp [headerTokens]; omega
+  unfold parseLines
+  rw [loop_file f hwf, loop]
+  simp [stateOf, hbad']
+
+/-! ### a header naming an undeclared channel -/
+
+theorem addChannels_undeclared (D : List (Str × Str × Str)) (ns : List Str) (chans : List Chan) (table : List (List Str))
+    (h : ∃ n ∈ ns, lookup D n = none) : addChannels D ns chans table = .error .dat := by
+  induction ns generalizing chans table with
+  | nil => obtain ⟨n, hn, _⟩ := h; simp at hn
+  | cons n0 ns ih =>
+    simp only [addChannels]
+    split
+    · rfl
+    · next desc units hl =>
+      split
+      · rfl
+      · apply ih
+        obtain ⟨n, hn, hnone⟩ := h
+        rcases List.mem_cons.mp hn with rfl | hn'
+        · rw [hl] at hnone; simp at hnone
+        · exact ⟨n, hn', hnone⟩
+
+theorem undeclared_lines (brk : Bool) (decls : List (Decl × LineLay)) (sel : List Str) (lay : LineLay) (tail : List Str)
+    (hd : ∀ d ∈ decls, d.1.wf ∧ d.2.wf) (hnd : (decls.map (fun d => d.1.name)).Nodup)
+    (hne : sel ≠ []) (ht : ∀ t ∈ sel, isTok t) (hl : lay.wf)
+    (hun : ∃ n ∈ headerTokens sel, n ∉ decls.map (fun d => d.1.name)) :
+    parseLines brk (decls.map (fun d => printLine (declTokens d.1) d.2) ++ printLine (headerTokens sel) lay :: tail)
+      = .error .dat := by
+  have h0 : ({} : St) = ⟨[], true, [], [], []⟩ := rfl
+  obtain ⟨n, hn, hnot⟩ := hun
+  have hnone : lookup ((decls.map (fun d => entry d.1)).reverse ++ []) n = none := by
+    apply lookup_none
+    intro e he
+    rw [List.append_nil, List.mem_reverse] at he
+    obtain ⟨d, hdm, rfl⟩ := List.mem_map.mp he
+    intro heq
+    exact hnot (List.mem_map.mpr ⟨d, hdm, heq⟩)
+  unfold parseLines
+  rw [h0, loop_decls brk decls [] _ hd hnd (by intro d _ e he; simp at he),
+    loop_header brk _ sel lay _ hne ht hl, addChannels_undeclared _ _ _ _ ⟨n, hn, hnone⟩]
+
+/-! ### a token that is not a number under a float channel -/
+
+theorem convertColumn_ok_cells (c : Chan) (col : List Str) (vs : List Value) (h : convertColumn c col = .ok vs) :
+    ∀ tok ∈ col, ∃ v, convertCell c tok = .ok v := by
+  induction col generalizing vs with
+  | nil => intro tok ht; simp at ht
+  | cons t ts ih =>
+    simp only [convertColumn] at h
+    split at h
+    · simp at h
+    · next v hv =>
+      split at h
+      · simp at h
+      · next vs' hvs =>
+        intro tok ht
+        rcases List.mem_cons.mp ht with rfl | ht'
+        · exact ⟨v, hv⟩
+        · exact ih vs' hvs tok ht'
+
+theorem convertAll_ok_cells (cs : List Chan) (cols : List (List Str)) (res : List (Chan × List Value))
+    (h : convertAll cs cols = .ok res) : ∀ p ∈ cs.zip cols, ∀ tok ∈ p.2, ∃ v, convertCell p.1 tok = .ok v := by
+  induction cs generalizing cols res with
+  | nil => intro p hp; simp at hp
+  | cons c cs ih =>
+    cases cols with
+    | nil => intro p hp; simp at hp
+    | cons col cols =>
+      simp only [convertAll] at h
+      split at h
+      · simp at h
+      · next vs hvs =>
+        split at h
+        · simp at h
+        · next r hr =>
+          intro p hp
+          rw [List.zip_cons_cons] at hp
+          rcases List.mem_cons.mp hp with rfl | hp'
+          · exact convertColumn_ok_cells c col vs hvs
+          · exact ih cols r hr p hp'
+
+theorem bad_number_lines (brk : Bool) (lines : List Str) (st : St) (hloop : loop brk {} lines = .ok st)
+    (c : Chan) (col : List Str) (tok : Str) (hmem : (c, col) ∈ st.chans.zip st.table)
+    (hk : convKind c.name c.units = .float) (htok : tok ∈ col) (hbad : parseFloat tok = none) :
+    parseLines brk lines = .error .dat := by
+  cases hres : parseLines brk lines with
+  | error e => rw [parseLines_err brk lines e hres]
+  | ok res =>
+    exfalso
+    unfold parseLines at hres
+    rw [hloop] at hres
+    simp only [] at hres
+    split at hres
+    · simp at hres
+    · split at hres
+      · simp at hres
+      · obtain ⟨v, hv⟩ := convertAll_ok_cells _ _ _ hres (c, col) hmem tok htok
+        simp [convertCell, hk, convert, hbad] at hv
+
 end TD.C14
